@@ -12,7 +12,7 @@ def gen(ctx, fam, tags):
     return pipeline.gen_tlc(ctx, "OFSwGen", cfg, "OFSwGen[%s]" % fam, fam, expect_min=FAMS.get(fam, 2) // 2, workers=8, xmx="12g")
 
 
-def run(ctx, prop, tags_quick="{7}", tags_thorough="{7, 61, 1000, 2000, 3000}"):
+def run(ctx, prop, tags_quick="{7, 61}", tags_thorough="{7, 61, 1000, 2000, 3000}"):
     recs, counts = [], {}
     tags = tags_quick if ctx.quick() else tags_thorough
     for fam in FAMS:
